@@ -69,8 +69,11 @@ def no_space_path_ok(p, hi=6):
     return True
 
 
+NO_SEP_LAST_EXCLUDED = [": "]   # set from the pattern text at run time (a repair adds `=` and `-`)
+
+
 def no_sep_path_ok(p):
-    return len(p) >= 2 and p[0] not in ":| =-" and p[-1] not in ": " and not re.search(r"[:=\-]", p[1:-1])
+    return len(p) >= 2 and p[0] not in ":| =-" and p[-1] not in NO_SEP_LAST_EXCLUDED[0] and not re.search(r"[:=\-]", p[1:-1])
 
 
 def starts_with_num(s, code):
@@ -415,10 +418,15 @@ def decode_rows(out, style):
             if f0 == PAL["hfile"]:
                 # classic function-context header: path = num = code<space>
                 path = segs[0][1]
-                assert segs[1] == (None, "=") and segs[2][0] == PAL["num"] and segs[3][0] is None and segs[3][1] in ("=", "= ")
-                text = "".join(t for f, t in segs[4:])
-                assert all(f == PAL["hunk"] for f, _ in segs[4:])
-                rows.append(("F", path, int(segs[2][1]), text))
+                if len(segs) > 2 and segs[2][0] == PAL["num"]:
+                    assert segs[1] == (None, "=") and segs[3][0] is None and segs[3][1] in ("=", "= ")
+                    num, rest = int(segs[2][1]), segs[4:]
+                else:
+                    assert segs[1][0] is None and segs[1][1] in ("=", "= ")
+                    num, rest = None, segs[2:]
+                text = "".join(t for f, t in rest)
+                assert all(f == PAL["hunk"] for f, _ in rest)
+                rows.append(("F", path, num, text))
             elif f0 == PAL["file"] and style == "ripgrep":
                 assert segs[1:] == [(None, " ")]
                 rows.append(("H", segs[0][1]))
@@ -456,6 +464,12 @@ def decode_rows(out, style):
                 rows.append(("?", row))
         except (AssertionError, IndexError, ValueError):
             rows.append(("?", row))
+    if style == "ripgrep":
+        # a blank row announces a new path group only when a path header follows; otherwise it is
+        # an (unnumbered) hit whose code is empty
+        for k, r in enumerate(rows):
+            if r == ("B",) and not (k + 1 < len(rows) and rows[k + 1][0] == "H"):
+                rows[k] = ("C", None, None, None, "", [])
     return rows
 
 
@@ -490,8 +504,10 @@ def gen_stream(rng, flavour=None, probe=None):
     if flavour == "json":
         lines.append(json.dumps({"type": "begin", "data": {"path": {"text": paths[0]}}}))
         hits.append(None)
+    n = 0
     for pi, path in enumerate(paths):
-        n = rng.randint(1, 40)
+        # (sometimes the first hit of a file has the number the previous file ended with)
+        n = n - 1 if (pi > 0 and n > 1 and rng.random() < 0.3) else rng.randint(1, 40)
         nh = rng.randint(1, 5)
         prev_kind = None
         for hi in range(nh):
@@ -671,6 +687,7 @@ def run(ctx, rep):
     spec.loader.exec_module(xg)
     try:
         texts = xg.pattern_texts(REPO)
+        NO_SEP_LAST_EXCLUDED[0] = xg.no_sep_last_excluded(REPO)
     except SystemExit as e:
         texts = None
         rep.corr_case("grep.patterns", False, dict(error=str(e)))
@@ -729,7 +746,8 @@ def run(ctx, rep):
     for ci, (line, r, fl) in enumerate(cases):
         res = per_case[ci]
         matched = any(i.startswith("ok some") for _, _, i, _ in res)
-        rep.case(key=("line", line), nontrivial=matched, sample=dict(op="grep.parse", line=line, impl=res[5][2]) if matched else None)
+        rep.case(key=("line", line), nontrivial=matched,
+                 sample=dict(op="grep.parse", line=line, impl=res[5][2], model=res[5][3]) if (matched and len(rep.samples) < 2) else None)
         rep.count("lines:" + fl)
         if r is None:
             continue
@@ -799,7 +817,8 @@ def run(ctx, rep):
     impl = ctx.hook().ask([f"grep.json {hx(l)}" for l in jl])
     model = mdl.ask([model_json_req(l) for l in jl]) if have_model else [None] * len(jl)
     for l, i, m in zip(jl, impl, model):
-        rep.case(key=("json", l), nontrivial=i.startswith("ok some"), sample=None)
+        rep.case(key=("json", l), nontrivial=i.startswith("ok some"),
+                 sample=dict(op="grep.json", line=l, impl=i, model=m) if (i.startswith("ok some") and len(rep.samples) < 3) else None)
         rep.count("json:" + ("rec" if i.startswith("ok some ripgrep") and " ignore " not in i else "other"))
         rep.corr_case("grep.json", same(i, m), dict(line=l, impl=i, model=m))
         # direct: a record that deserialises keeps path / number / text minus line ending / spans
@@ -836,7 +855,7 @@ def run(ctx, rep):
     for q, (op, code, spans, w), i, m in zip(sreqs, scases, impl, model):
         data = code.encode()
         ok = spans_ok(data, spans)
-        rep.case(key=(op, code, tuple(spans), w), nontrivial=len(spans) > 0, sample=dict(op="grep." + op, code=code, spans=spans, impl=i) if spans else None)
+        rep.case(key=(op, code, tuple(spans), w), nontrivial=len(spans) > 0, sample=dict(op="grep." + op, code=code, spans=spans, impl=i, model=m) if (spans and len(rep.samples) < 4) else None)
         rep.count(f"sections:{'valid' if ok else 'invalid'}:{'panic' if i.startswith('PANIC') else 'ok'}")
         rep.corr_case("grep." + op, same(i, m), dict(req=q, code=code, spans=spans, impl=i, model=m))
         if op == "sections" and ok:
@@ -901,6 +920,7 @@ def run_streams(ctx, rep, streams, mdl):
     # model-side parse of every line (full model pipeline: parse, then emit)
     fields_per_stream = []
     frag_per_stream = []
+    emit_skipped = set()
     if mdl is not None:
         allreq, idx = [], []
         for si, st in enumerate(streams):
@@ -945,6 +965,11 @@ def run_streams(ctx, rep, streams, mdl):
                 pok = stripped.startswith(pre) and stripped[len(pre):] == r["code"] and ("\t" not in r["path"] or tabw_s in (0, 1))
             else:
                 pok = True
+            if not pok and r["kind"] == "match":
+                # what happens then depends on the text the mis-cut sections happen to contain (a panic when
+                # they differ from the code, nothing when e.g. a TAB in the path left blanks there): the model's
+                # `prefixOk` does not decide it; such streams are left to the probes
+                emit_skipped.add(si)
             subs = "-" if r["subs"] is None else (str(len(r["subs"])) + "".join(" %d %d" % s for s in r["subs"]))
             fields.append("H %s %s %s %s %d %s %s" % (r["gtype"], r["kind"], hx(r["path"]), "-" if r["num"] is None else r["num"],
                                                        1 if pok else 0, hx(r["code"]), subs))
@@ -960,7 +985,10 @@ def run_streams(ctx, rep, streams, mdl):
     emit_reqs, emit_idx = [], []
     for (si, style, tabw), (rc, out, err, args, data) in zip(jobs, results):
         st = streams[si]
-        if fields_per_stream[si] is not None:
+        if si in emit_skipped:
+            rep.count("streams:emit-correspondence-skipped:prefix-length-not-recomputable")
+            emit_idx.append(None)
+        elif fields_per_stream[si] is not None:
             hdr = 0 if st["wflag"] else 1
             ot = "-" if style == "default" else style
             emit_reqs.append("grep.emit %s %d %d %d %s" % (ot, tabw, hdr, len(st["lines"]), " ".join(fields_per_stream[si])))
@@ -1056,7 +1084,7 @@ def model_rows(ans, flavour):
             out.append(("C", path, num, sep, text, merge_spans(spans) if flavour == "json" else None))
         elif f[0] == "F":
             t = unhxs(f[3])
-            out.append(("F", unhxs(f[1]), int(f[2]), (t + " ") if t else ""))
+            out.append(("F", unhxs(f[1]), None if f[2] == "-" else int(f[2]), (t + " ") if t else ""))
     return out
 
 
@@ -1064,7 +1092,8 @@ def judge_stream(rep, st, style, tabw, rc, out, err, rows, replay):
     """The property itself, on the real output."""
     if rc != 0:
         sig = classify_panic(err) if rc == 101 else f"exit:{rc}"
-        rep.violation(sig, f"delta exits {rc} on a grep result stream: {err[-300:]}", replay)
+        site, msg = panic_site(err)
+        rep.violation(sig, f"delta exits {rc} on a grep result stream: panicked at {site}: {msg}" if rc == 101 else f"delta exits {rc}: {err[-300:]}", replay)
         return
     want = expected_rows(st, tabw)
     got = shown_rows(rows)
